@@ -11,6 +11,7 @@ import (
 	"github.com/AdguardTeam/urlfilter"
 	"github.com/AdguardTeam/urlfilter/filterlist"
 	"github.com/AdguardTeam/urlfilter/rules"
+	"github.com/miekg/dns"
 )
 
 type hostCase struct {
@@ -256,6 +257,17 @@ func cmdReplayHosts(args []string) error {
 							}
 							if got != want || matched != q.want {
 								bad(c, line, "DNSEngine.Match", "query "+q.name, want, fmt.Sprintf("%s matched=%v", got, matched))
+							}
+							// a hosts entry is reported whatever record type is asked for: the groups say which family it is
+							for _, dt := range []uint16{dns.TypeA, dns.TypeAAAA, dns.TypeMX} {
+								var r2 *urlfilter.DNSResult
+								var m2 bool
+								if pv := safeCall(func() { r2, m2 = eng.MatchRequest(&urlfilter.DNSRequest{Hostname: q.name, DNSType: dt}) }); pv != "" {
+									bad(c, line, "DNSEngine.MatchRequest", "panic "+pv, nil, nil)
+								} else if distinct(r2.HostRulesV4) != n4 || distinct(r2.HostRulesV6) != n6 || m2 != matched {
+									bad(c, line, "DNSEngine.MatchRequest", fmt.Sprintf("query %s for record type %d", q.name, dt), want,
+										fmt.Sprintf("v4=%d v6=%d matched=%v", distinct(r2.HostRulesV4), distinct(r2.HostRulesV6), m2))
+								}
 							}
 						}
 					}
